@@ -371,4 +371,133 @@ theorem notloc_west (T B : SRect) (hT : InGrid T nr nc)
 
 end
 
+/-- the roles `create_stog` is expected to hand out, in the order `rectangles()` lists the branches. -/
+def Instance.sides (I : Instance) : List Loc :=
+  I.north.map (fun _ => Loc.north) ++ I.south.map (fun _ => Loc.south) ++ I.east.map (fun _ => Loc.east)
+    ++ I.west.map (fun _ => Loc.west)
+
+/-- the list handed to `create_stog`: trunk first, then the branches, as `Rectangle`s. -/
+def Instance.loaded (I : Instance) (X Y : ℕ → α) : List (Rect α) := I.rectangles.map (rectOf X Y)
+
+/-- recognition of one offered instance (`T` its potential trunk). -/
+theorem instance_recognised (m : Grid) (hwf : m.wf = true) (T : SRect) (hT : T ∈ potentialTrunks m) (I : Instance)
+    (hmk : mkInstance m T = some I) {ε εA : α} {X Y : ℕ → α} (hco : CoordsOK ε X Y m.nrows m.ncols) (hA : 0 ≤ εA) :
+    ∃ out, createStog ε εA (I.loaded X Y) = some (true, out) ∧ out.map eraseLoc = I.loaded X Y ∧
+      out.map (·.loc) = Loc.trunk :: I.sides := by
+  obtain ⟨e0, hv, hcover, _, hN, hS, hE, hW⟩ := instance_facts m hwf T hT I hmk
+  have hmax := potentialTrunk_maximal m hwf T hT
+  have hr := hv.rows_le
+  have hc := hv.cols_le
+  have hcellT := hv.ones T.rows.high T.cols.high ⟨hr, Nat.le_refl _, hc, Nat.le_refl _⟩
+  have hTg : InGrid T m.nrows m.ncols := ⟨hr, cell_lt_rows hcellT, hc, cell_lt_cols hwf hcellT⟩
+  -- cells of a branch are ones
+  have inb : ∀ b ∈ I.branches, ∀ i j, b.rows.low ≤ i → i ≤ b.rows.high → b.cols.low ≤ j → j ≤ b.cols.high →
+      cell m i j = true := fun b hb i j h1 h2 h3 h4 => (hcover i j).2 (Or.inr ⟨b, hb, (mem_iff b i j).2 ⟨h1, h2, h3, h4⟩⟩)
+  have memN : ∀ b ∈ I.north, b ∈ I.branches := fun b hb => by
+    simp only [Instance.branches, List.mem_append]; exact Or.inl (Or.inl (Or.inl hb))
+  have memS : ∀ b ∈ I.south, b ∈ I.branches := fun b hb => by
+    simp only [Instance.branches, List.mem_append]; exact Or.inl (Or.inl (Or.inr hb))
+  have memE : ∀ b ∈ I.east, b ∈ I.branches := fun b hb => by
+    simp only [Instance.branches, List.mem_append]; exact Or.inl (Or.inr hb)
+  have memW : ∀ b ∈ I.west, b ∈ I.branches := fun b hb => by
+    simp only [Instance.branches, List.mem_append]; exact Or.inr hb
+  -- claim 1: every branch is located on its side by the trunk
+  have c1 : I.branches.map (fun b => findLocation ε εA (rectOf X Y T) (rectOf X Y b)) = I.sides := by
+    simp only [Instance.branches, Instance.sides, List.map_append]
+    congr 1
+    · congr 1
+      · congr 1
+        · exact List.map_congr_left fun b hb => loc_north hco hA T b hTg (hN b hb)
+        · refine List.map_congr_left fun b hb => loc_south hco hA T b hTg ?_ (hS b hb)
+          have h := hS b hb
+          exact cell_lt_rows (inb b (memS b hb) b.rows.high b.cols.low h.1 (Nat.le_refl _) (Nat.le_refl _) h.2.2.2.1)
+      · refine List.map_congr_left fun b hb => loc_east hco hA T b hTg ?_ (hE b hb)
+        have h := hE b hb
+        exact cell_lt_cols hwf (inb b (memE b hb) b.rows.low b.cols.high (Nat.le_refl _) h.2.2.2.1 h.1 (Nat.le_refl _))
+    · exact List.map_congr_left fun b hb => loc_west hco hA T b hTg (hW b hb)
+  -- claim 2: no branch can serve as trunk
+  have c2 : ∀ b ∈ I.branches, findLocation ε εA (rectOf X Y b) (rectOf X Y T) = .nopoly := by
+    intro b hb
+    have hb' := hb
+    simp only [Instance.branches, List.mem_append] at hb'
+    rcases hb' with ((hn | hs) | he) | hw
+    · have h := hN b hn
+      refine notloc_north hco hA T b hTg h ?_
+      rintro ⟨a1, a2⟩
+      exact hmax.up ⟨by omega, fun j j1 j2 => inb b hb (T.rows.low - 1) j (by omega) (by omega) (by omega) (by omega)⟩
+    · have h := hS b hs
+      refine notloc_south hco hA T b hTg ?_ h ?_
+      · exact cell_lt_rows (inb b hb b.rows.high b.cols.low h.1 (Nat.le_refl _) (Nat.le_refl _) h.2.2.2.1)
+      · rintro ⟨a1, a2⟩
+        exact hmax.down fun j j1 j2 => inb b hb (T.rows.high + 1) j (by omega) (by omega) (by omega) (by omega)
+    · have h := hE b he
+      refine notloc_east hco hA T b hTg ?_ h ?_
+      · exact cell_lt_cols hwf (inb b hb b.rows.low b.cols.high (Nat.le_refl _) h.2.2.2.1 h.1 (Nat.le_refl _))
+      · rintro ⟨a1, a2⟩
+        exact hmax.right fun i i1 i2 => inb b hb i (T.cols.high + 1) (by omega) (by omega) (by omega) (by omega)
+    · have h := hW b hw
+      refine notloc_west hco hA T b hTg h ?_
+      rintro ⟨a1, a2⟩
+      exact hmax.left ⟨by omega, fun i i1 i2 => inb b hb i (T.cols.low - 1) (by omega) (by omega) (by omega) (by omega)⟩
+  -- the list
+  have hL : I.loaded X Y = rectOf X Y T :: I.branches.map (rectOf X Y) := by
+    simp [Instance.loaded, Instance.rectangles, e0]
+  have hLe : (I.loaded X Y).map eraseLoc = I.loaded X Y := by
+    rw [hL]; simp only [List.map_cons, List.map_map]
+    congr 1
+  have h0 : IsTrunkAt ε εA (I.loaded X Y) 0 := by
+    refine ⟨by rw [hL]; simp, ?_⟩
+    intro j hj hne
+    simp only [hL] at hj ⊢
+    cases j with
+    | zero => exact absurd rfl hne
+    | succ j =>
+      simp only [List.length_cons, List.length_map] at hj
+      simp only [List.getElem_cons_zero, List.getElem_cons_succ, List.getElem_map]
+      have := congrArg (fun l => l[j]?) c1
+      simp only [List.getElem?_map] at this
+      have hj' : j < I.branches.length := by omega
+      have hs : I.sides[j]? = some (findLocation ε εA (rectOf X Y T) (rectOf X Y I.branches[j])) := by
+        rw [← this, List.getElem?_eq_getElem hj']; rfl
+      intro hcontra
+      rw [hcontra] at hs
+      -- `nopoly` is not among the sides
+      have hmem : Loc.nopoly ∈ I.sides := List.mem_of_getElem? hs
+      simp [Instance.sides] at hmem
+  have huniq : ∀ b, IsTrunkAt ε εA (I.loaded X Y) b → b = 0 := by
+    intro b hb
+    cases b with
+    | zero => rfl
+    | succ b =>
+      exfalso
+      obtain ⟨hlt, hall⟩ := hb
+      have h00 : 0 < (I.loaded X Y).length := by omega
+      have := hall 0 h00 (by omega)
+      apply this
+      simp only [hL] at hlt ⊢
+      simp only [List.length_cons, List.length_map] at hlt
+      simp only [List.getElem_cons_zero, List.getElem_cons_succ, List.getElem_map]
+      exact c2 _ (List.getElem_mem _)
+  have hne : I.loaded X Y ≠ [] := by rw [hL]; simp
+  rcases createStog_spec ε εA (I.loaded X Y) hne with ⟨r, hr1, e⟩ | ⟨_, hno, _⟩ | ⟨_, b, hb, hb', h0', e⟩
+  · rw [hL] at hr1
+    simp only [List.cons.injEq, List.map_eq_nil_iff] at hr1
+    obtain ⟨rfl, hnil⟩ := hr1
+    refine ⟨_, e, ?_, ?_⟩
+    · rw [hL, hnil]; rfl
+    · have : I.sides = [] := by rw [← c1, hnil]; rfl
+      rw [this]; rfl
+  · exact absurd ⟨0, h0⟩ hno
+  · have hb0 := huniq b hb
+    subst hb0
+    have hset : (((I.loaded X Y).map eraseLoc).set 0 ((I.loaded X Y).map eraseLoc)[0]).set 0 ((I.loaded X Y).map eraseLoc)[0]
+        = I.loaded X Y := by
+      rw [List.set_getElem_self, List.set_getElem_self, hLe]
+    rw [hset] at e
+    refine ⟨_, e, ?_, ?_⟩
+    · rw [label_map_eraseLoc, hLe]
+    · rw [hL]
+      simp only [label, List.map_cons, List.map_map]
+      congr 1
+
 end FV.Strop
